@@ -260,6 +260,25 @@ fn usage<T: Transport>(d: &mut AnyDriver<T>, co: &CoRc, steps: usize, keep: &mut
                         }
                     }
                 }
+                5 => {
+                    // All buffers but one go back; the device then completes one of them with
+                    // fewer bytes than a packet header (receive fails) while the caller still
+                    // holds the last one.
+                    while keep.rx.len() > 1 {
+                        let rx = keep.rx.remove(0);
+                        let _ = n.recycle_rx_buffer(rx);
+                    }
+                    co.borrow_mut().complete_held(0, 0, &[1, 2, 3], 3);
+                    let _ = n.receive();
+                }
+                6 => {
+                    // The held buffer goes back after the runt: whatever recycle answers, a
+                    // buffer that has been posted must not be freed.
+                    while !keep.rx.is_empty() {
+                        let rx = keep.rx.remove(0);
+                        let _ = n.recycle_rx_buffer(rx);
+                    }
+                }
                 _ => {
                     let tx = n.new_tx_buffer(8);
                     let _ = n.send(tx);
